@@ -17,6 +17,18 @@ func main() {
 		cmdFn(os.Args[2:])
 	case "check":
 		cmdCheck(os.Args[2:])
+	case "mods":
+		e, err := LoadEngine("/repo", []string{os.Args[2]}, "/verif/spec")
+		if err != nil {
+			fmt.Println(err)
+			os.Exit(2)
+		}
+		parts := strings.SplitN(os.Args[3], "::", 2)
+		fn := e.FindFunc(parts[0], parts[1])
+		m := e.modOf(fn)
+		for _, k := range sortedKeys(m) {
+			fmt.Println(k, m[k])
+		}
 	case "abs":
 		b, _ := os.ReadFile(os.Args[2])
 		fmt.Print(abstractStrings(string(b)))
